@@ -359,6 +359,12 @@ fn write_empty_file_block_at(
     offset: u64,
     block_number: u64,
 ) -> Result<(), PatchError> {
+    // a block count of zero (or one that does not fit the header field) cannot be written
+    let num_blocks: i32 = block_number
+        .checked_sub(1)
+        .and_then(|x| x.try_into().ok())
+        .ok_or(PatchError::ParseError)?;
+
     wipe_from_offset(file, (block_number << 7) as usize, offset)?;
 
     file.seek(SeekFrom::Start(offset))?;
@@ -372,7 +378,6 @@ fn write_empty_file_block_at(
     let file_size: i32 = 0;
     file.write_all(file_size.to_le_bytes().as_slice())?;
 
-    let num_blocks: i32 = (block_number - 1).try_into().unwrap();
     file.write_all(num_blocks.to_le_bytes().as_slice())?;
 
     let used_blocks: i32 = 0;
